@@ -324,6 +324,9 @@ impl<T> Pool<T> {
         let _ = self.inner.available.fetch_add(1, Ordering::Relaxed);
         verif_point!("uadd.add_permits");
         self.inner.semaphore.add_permits(1);
+        // The pool might have been closed in the meantime: make sure a closed
+        // pool doesn't keep the object.
+        self.inner.clean_up();
     }
 
     /// Removes an [`Object`] from this [`Pool`].
